@@ -14,7 +14,10 @@ claimed = {
  "C06": "Theorem C06 (body mode = the HTTP rules, for every method, status : Nat, version, header list), C06_bad_content_length, C06_successor (state after the head).",
  "C07": "Theorem C07 (from V2.C07_schedule): for every valid coding (grammar V2.Rem), every arrival/window schedule, output size and boundary-stop setting, the reads never fail, output is a prefix of the chunk data, only coding bytes are consumed, ended iff the final CRLF was consumed; tied to CallSt.read by read_chunked_eq. Partial: 'no read returns data of two chunks with boundary stop' and liveness are decided by the correspondence and the oracle only (no theorem yet).",
  "C08": "Theorems C08_len (every schedule delivers a verbatim prefix of the next N bytes, consumed = delivered <= N, complete iff N delivered), C08_close_step, C08_close_can_proceed, C08_close_marks, C08_reasons_kept.",
+ "C09": "Theorem C09_history (from wf_step: every operation of every typestate on a well-formed flow returns without panic and leaves a well-formed flow; lifted by induction to every call history with arbitrary bytes and buffer sizes), C09_ready (advance succeeds iff the readiness query is true), C09_edges (successor = documented graph), C09_follow_wf; D11 (second as_new_flow) is a recorded finding with an evaluated witness.",
+ "C10": "Theorems C10_verdict, C10_initial, C10_step (a reason is recorded after a step iff it was before or the step is exactly one of the three events: non-100 while awaiting, returned response with Connection: close, close-delimited body entered), C10_cap.",
  "C11": "Theorems C11_undecided(_bare), C11_continue, C11_refused_bare, C11_refused_fields (response with >=1 complete field line, any status), C11_proceed (edges incl. converted holder), C11_late (late 100 consumed once).",
+ "C12": "Theorems for ARBITRARY bytes: C12_read (every body framing: error or consumed<=offered, produced<=space, produced is a subsequence of consumed input; decoder never rests in the trailer state), C12_head / C12_partial (no panic outcome, consumed<=offered), plus C09_history for 'state-advancing calls afterwards do not panic'.",
  "C16": "Theorems C16_order (caller-added headers are the first effective headers, for any unset list), C16_add, C16_analysis_appends, C16_render, with C02_render putting them on the wire in that order; C16_inherited_still_suppressed.",
  "C17": "Theorems C17_iff (analysis fails exactly on the invalid classes of the property text), C17_write_refused (error, nothing emitted, state unchanged => repeatable), C17_never_ready, C17_accept (everything else: ok or OutputOverflow).",
  "C18": "Theorems C18_fits_chunked (a write of calculate_max_input(n) bytes into n bytes consumes all of it, for every n, through the byte-level writer), C18_sized, C18_le_n, C18_monotone.",
